@@ -168,8 +168,63 @@ def body_is_distributor(b):
     return b.impl_self == "socket::patterns::distributor::Distributor"
 
 
+def _stored_variant(body, blk, how):
+    """variant of the REQ/REP state enum stored at block `blk` (plain store or the new value of mem::replace)"""
+    out = []
+    if how == "store":
+        for st in body.blocks[blk]["st"]:
+            if st["k"] == "assign" and st["p"]["pr"] and st["p"]["pr"][0][0] == "deref":
+                rv = st["r"]
+                if rv["k"] == "agg" and rv.get("adt", "").endswith("State"):
+                    out.append(rv.get("variant"))
+                elif rv["k"] == "use":
+                    org = body.value_origin(rv["o"])
+                    out.append(org[1]["r"].get("variant") if org[0] == "agg" else None)
+    else:
+        t = body.term(blk)
+        c = __import__("vlib.mir", fromlist=["Call"]).Call(body, blk, t)
+        if len(c.args) > 1:
+            org = body.value_origin(c.args[1])
+            out.append(org[1]["r"].get("variant") if org[0] == "agg" else None)
+    return out
+
+
+def r4_fsm_advances_after_the_await(chk):
+    from rules import c10
+    r = chk.rule("R4", "REQ/REP state advances only after the awaited hand-off completed", "T10 + T7 lock scopes",
+                 "in ReqSocket/RepSocket operations no store of a non-initial protocol state is followed by a suspension point: a future dropped there would leave the "
+                 "socket in a state that rejects the next valid call although the operation never happened (resets to the constructor's initial state are cancel-safe)")
+    for cfg, prog in chk.configs():
+        init = {}
+        for b in prog.find_bodies(r"(req_socket::ReqSocket|rep_socket::RepSocket)::new$"):
+            for blk, i, st in b.aggregates():
+                if st["r"].get("adt", "").endswith("State"):
+                    init[b.impl_self or b.path.rsplit("::", 1)[0]] = st["r"].get("variant")
+        if len(init) != 2:
+            r.bad(cfg, "anchor|initial REQ/REP states", "core/src/socket", "constructors' initial state not found (%s)" % init)
+            continue
+        n = 0
+        for body in c10.fsm_bodies(prog):
+            ini = init.get(body.impl_self)
+            ys = body.yields()
+            for sc in c10.lock_scopes(body, r"^self\.state$"):
+                for w, how in sc.writes:
+                    n += 1
+                    vs = _stored_variant(body, w, how)
+                    later = [y for y in ys if y in body.reachable([w]) and y != w]
+                    key = "%s|state <- %s" % (short(body.path), ",".join(str(v) for v in vs) or "?")
+                    if not later:
+                        r.ok(cfg, key, where(body, w), "no suspension point after the store")
+                    elif vs and all(v == ini for v in vs):
+                        r.ok(cfg, key, where(body, w), "reset to the initial state %s before the await: a dropped future leaves the socket accepting the next call" % ini)
+                    else:
+                        r.bad(cfg, key, where(body, w), "the protocol state is advanced to %s and the task then awaits at %s: if the future is dropped there (timeout, select!, back-pressure) the operation did not happen but the socket rejects the next valid call" % (",".join(str(v) for v in vs) or "an unknown state", body.term(later[0])["sp"].split("/")[-1]))
+        r.require(cfg, 8, "REQ/REP state stores")
+
+
 def run(chk):
     chk.undecided = ["the effect of dropping a future at each Pending poll (dynamic enumeration of poll points)", "interaction of cancellation with peer traffic"]
     r1_take_then_await(chk)
     r2_reservation_raii(chk)
     r3_no_lone_more_frame(chk)
+    r4_fsm_advances_after_the_await(chk)
